@@ -184,7 +184,7 @@ def c16_jobs(tier):
 
 
 def c03_jobs(tier):
-    n = scale(tier, 16000, 600000)
+    n = scale(tier, 9000, 600000)
     tag = scale(tier, "quick", "")
     js = []
     windows = [16] if tier != "thorough" else [16, 64, 256]
